@@ -408,22 +408,21 @@ class ChooseOp(IRDLOperation):
         data_operand_types = ChooseOp._check_operand_types(data_operands, operations)
         # Default operation
         default_block = Block(arg_types=data_operand_types)
-        value_mapper = {
-            SSAValue.get(arg): SSAValue.get(val)
-            for arg, val in zip(operations[0].operands, default_block.args, strict=True)
-        }
-        default_block.add_ops([result := operations[0].clone(value_mapper), YieldOp(result)])
+        result = operations[0].clone()
+        # connect the i-th operand to the i-th block argument (operands may repeat, so map by position)
+        for i, val in enumerate(default_block.args):
+            result.operands[i] = val
+        default_block.add_ops([result, YieldOp(result)])
         default_region = Region(default_block)
         # Non-default
         case_regions: list[Region] = []
         if len(operations) > 1:
             for operation in operations[1:]:
                 case_block = Block(arg_types=data_operand_types)
-                value_mapper = {
-                    SSAValue.get(arg): SSAValue.get(val)
-                    for arg, val in zip(operation.operands, case_block.args, strict=True)
-                }
-                case_block.add_ops([result := operation.clone(value_mapper), YieldOp(result)])
+                result = operation.clone()
+                for i, val in enumerate(case_block.args):
+                    result.operands[i] = val
+                case_block.add_ops([result, YieldOp(result)])
                 case_regions.append(Region(case_block))
         return ChooseOp(
             name=name,
